@@ -46,16 +46,11 @@ OPERATOR_FN = {'ADD': {'add', '__add__'}, 'SUB': {'sub', '__sub__'},
 
 def _dict_in(A, func):
     """The (single) dict display in func that folds."""
-    best = None
-    for node in walk_own(func.node):
-        if isinstance(node, ast.Dict) and node.keys:
-            try:
-                best = A.fold(node, func)
-            except Unfoldable:
-                continue
-    if best is None:
+    tables = [t for t, _n in A.tables_in(func)
+              if all(isinstance(k, str) for k in t)]
+    if not tables:
         raise AnalysisError('%s: table not found' % func.short)
-    return best
+    return max(tables, key=len)
 
 
 def binop_sets(A):
@@ -348,9 +343,14 @@ def r02g(R):
         # assumed True. Until the first next_token() on the path the current
         # token is '-', so tests of its text fold.
         from ..const import Ctx, fold as kfold, Unfoldable as U
-        tok_texts = ('str(self.current_token)', 'str(self._current_token)',
+        tok_texts = ['str(self.current_token)', 'str(self._current_token)',
                      'self.current_token.content',
-                     'self._current_token.content')
+                     'self._current_token.content']
+        # locals assigned the token text before anything is consumed
+        for n0 in walk_own(f.node):
+            if isinstance(n0, ast.Assign) and isinstance(n0.targets[0], ast.Name) \
+                    and norm(n0.value) in tok_texts:
+                tok_texts.append(n0.targets[0].id)
 
         def on_node(n, facts):
             for c in n.calls():
@@ -420,6 +420,12 @@ def r02f(R):
         raise AnalysisError('ExpressionParser._expression: recursive call not found')
     arg = rec[0].args[0]
     min_param = ex.params[1]
+    opv = [norm(n.targets[0]) for n in ast.walk(outer)
+           if isinstance(n, ast.Assign) and norm(n.value) == 'self.current_token'
+           and isinstance(n.targets[0], ast.Name)]
+    if len(opv) != 1:
+        raise AnalysisError('_expression: pending-operator local not found')
+    OP = opv[0]
     syms = sorted(DOCUMENTED_BINOPS)
     prec, assoc = {}, {}
     for s in syms:
@@ -431,8 +437,8 @@ def r02f(R):
              'self.current_token.assoc': assoc[cur],
              'self.current_token.is_binop': True}
         if op is not None:
-            d['op.prec'] = prec[op]
-            d['op.assoc'] = assoc[op]
+            d[OP + '.prec'] = prec[op]
+            d[OP + '.assoc'] = assoc[op]
         if min_prec is not None:
             d[min_param] = min_prec
         return d
